@@ -150,11 +150,12 @@ func (k Keeper) AdjustPool(
 
 	// expiredHeight = [(srcEndHeight-beginPoint)*srcRewardPerBlock +appendReward]/RewardPerBlock + beginPoint
 	rewardsPerBlock := types.RewardRules(pool.Rules).RewardsPerBlock()
-	availableHeight := availableReward[0].Amount.Quo(rewardsPerBlock.AmountOf(availableReward[0].Denom)).Int64()
-	for _, c := range availableReward[1:] {
-		rpb := rewardsPerBlock.AmountOf(c.Denom)
-		inteval := c.Amount.Quo(rpb).Int64()
-		if availableHeight > inteval {
+	// every rule bounds the remaining duration, including those that have
+	// nothing left to distribute
+	availableHeight := int64(-1)
+	for _, r := range pool.Rules {
+		inteval := availableReward.AmountOf(r.Reward).Quo(rewardsPerBlock.AmountOf(r.Reward)).Int64()
+		if availableHeight < 0 || availableHeight > inteval {
 			availableHeight = inteval
 		}
 	}
